@@ -37,7 +37,26 @@ def runto_cases(inst, rng, thorough):
     if len(cmds) >= 2:
         pairs = list(itertools.combinations(cmds, 2))
         sets += [list(p) for p in (pairs if thorough else rng.sample(pairs, min(2, len(pairs))))]
+    # targets on different branches (neither upstream of the other), in both orders, by name and by process: always present
+    ni = norm_inst(inst)
+    ups = {c: set() for c in names}
+    for e in ni["edges"] + ni["pedges"]:
+        ups[e["tp"]].add(e["fp"])
+    def closure(x):
+        seen, todo = set(), [x]
+        while todo:
+            y = todo.pop()
+            for z in ups.get(y, ()):
+                if z not in seen: seen.add(z); todo.append(z)
+        return seen
+    branchy = [(a, b) for a in cmds for b in cmds if a != b and a not in closure(b) and b not in closure(a)]
+    fixed = []
+    for a, b in branchy[:2]:
+        fixed += [("runto", [a, b]), ("runtoprocs", [a, b])]
     cases = []
+    for mode, tg in fixed:
+        i = dict(inst); i["mode"] = mode; i["targets"] = tg
+        cases.append(i)
     for tg in sets:
         for mode in (("runto", "runtoregex", "runtoprocs") if thorough else (rng.choice(["runto", "runtoprocs"]), "runtoregex")):
             i = dict(inst); i["mode"] = mode; i["targets"] = tg
@@ -76,8 +95,15 @@ def check_C16(tier):
         cases += [("unwired", c) for c in unwired_cases(b)]
     # plain Run of workflows with out-ports nobody consumes (file and parameter out-ports, of processes and of components): they end in
     # the sink and must be drained - the workflow completes with every task of Expected
-    for d in (zoo.Z19(n=3), zoo.PC2S(n=4, buf=1), zoo.PC2S(n=8, buf=2), zoo.Z2(n=3), zoo.Z7(n=3), zoo.Z21(n=6, buf=2), zoo.Z21(n=5, buf=1)):
+    for d in (zoo.Z19(n=3), zoo.PC2S(n=4, buf=1), zoo.PC2S(n=8, buf=2), zoo.Z2(n=3), zoo.Z7(n=3), zoo.Z21(n=6, buf=2), zoo.Z21(n=5, buf=1), zoo.Z15()):
         d = dict(d); d["mode"] = "run"; d["targets"] = []
+        cases.append(("runto", d))
+    # run sets consisting of exactly one process without out-ports: the only process of a workflow, or a parameter-driven leaf named as RunTo target
+    leafp = dict(name="LEAFP", max=2, bufsize=2, procs=[src("s", zoo.items(2)), cmd("a", ["in"]), cmd("note", [], [], ["p"])],
+                 edges=[E("s.out", "a.in")], feeds=[dict(to="note.p", values=["k1", "k2", "k3"])])
+    for mode, inst0, tg in (("runto", zoo.Z15(), ["solo"]), ("runtoprocs", zoo.Z15(), ["solo"]), ("runto", leafp, ["note"]), ("runtoregex", leafp, ["note"])):
+        d = dict(inst0); d["mode"] = mode; d["targets"] = tg
+        if mode == "runtoregex": d["patterns"] = ["^note$"]
         cases.append(("runto", d))
     # closed model on a sample of the RunTo cases (the static wiring is evaluated for all of them by expected())
     sample = [c for k, c in cases if k == "runto" and c["mode"] != "run"]
